@@ -175,6 +175,8 @@ var validatorSets = map[string][]string{
 	"W": {"a", "b", "e", "f"},
 	"X": {"e", "f", "g", "h"},
 	"U": {"a", "b", "c", "d", "e", "f", "g"},
+	"Y": {"c", "d", "g", "h"},
+	"Z": {"h"},
 }
 
 func NewWorld(t *testing.T) *World {
